@@ -57,3 +57,39 @@ Definition judge_C20_send (tr : list io_event) (ok : bool) : bool :=
 (* a sequence of sends: each one is judged on its own trace *)
 Definition judge_C20 (l : list (list io_event * bool)) : bool :=
   forallb (fun '(tr, ok) => judge_C20_send tr ok) l.
+
+(* ---- the OBSERVATION the correspondence run takes of one send (counts, because the real
+   code offers no event trace): verdict, successful dials, per cached connection (ids 0, 1)
+   the numbers of accepted writes / failed writes / closes, and per dialled connection
+   (ids 2 .. next-1) the number of accepted writes.  [obs_of_trace] computes it from a model
+   trace; the Go driver counts the same things on its connection doubles. ---- *)
+Record conn_counts := { cc_ok : nat; cc_fail : nat; cc_close : nat }.
+Record send_obs := { so_ok : bool; so_dials : nat; so_c0 : conn_counts; so_c1 : conn_counts;
+                     so_dialled : list nat }.
+
+Definition count_ev (f : io_event -> bool) (tr : list io_event) : nat := List.length (filter f tr).
+Definition is_write (c : nat) (ok : bool) (e : io_event) : bool :=
+  match e with EWrite c' ok' => Nat.eqb c c' && Bool.eqb ok ok' | _ => false end.
+Definition is_close (c : nat) (e : io_event) : bool :=
+  match e with EClose c' => Nat.eqb c c' | _ => false end.
+Definition is_dial_ok (e : io_event) : bool := match e with EDial (Some _) => true | _ => false end.
+Definition counts_of (c : nat) (tr : list io_event) : conn_counts :=
+  {| cc_ok := count_ev (is_write c true) tr; cc_fail := count_ev (is_write c false) tr;
+     cc_close := count_ev (is_close c) tr |}.
+Definition obs_of_trace (next : nat) (tr : list io_event) (ok : bool) : send_obs :=
+  {| so_ok := ok; so_dials := count_ev is_dial_ok tr; so_c0 := counts_of 0 tr; so_c1 := counts_of 1 tr;
+     so_dialled := map (fun c => count_ev (is_write c true) tr) (seq 2 (next - 2)) |}.
+
+(* C20 on one observed send:
+   - success iff the message was accepted exactly once over ALL connections, an error iff
+     it was accepted nowhere (no loss reported as success, no duplication, no false error);
+   - a cached connection is written at most once per send, and a failed write on it is
+     followed by its close (it is forgotten, not retried);
+   - at most two successful dials (termination bound of the retry loops). *)
+Definition cached_ok (c : conn_counts) : bool :=
+  Nat.leb (cc_ok c + cc_fail c) 1 && Nat.leb (cc_fail c) (cc_close c).
+Definition judge_C20_obs (o : send_obs) : bool :=
+  let total := cc_ok (so_c0 o) + cc_ok (so_c1 o) + list_sum (so_dialled o) in
+  Nat.eqb total (if so_ok o then 1 else 0)
+  && cached_ok (so_c0 o) && cached_ok (so_c1 o)
+  && Nat.leb (so_dials o) 2.
